@@ -33,6 +33,12 @@ def run(ctx):
             for corpus in ("mix", "shipped"):
                 extra.append(dict(entry=rnd.choice(["universal", "cached", "cli"] if corpus == "mix" else ["universal", "cached"]), limit=5, nlp=nlp, fuzzy=True, thr=0, ponly=False, pboost=False,
                                   allplat=False, plats=[], nocross=False, boost=False, query="raw", raw=raw, corpus=corpus))
+    # the deprecated public entry points (NLP / fuzzy / options searches) answer case variants alike, too
+    for raw in ["Get disk usage", "The Frobnicate widget", "Find FILES by name", "frobnicate Widget", "Frobnicte", "List The files"]:
+        for entry in ("legacynlp", "legacyfuzzy", "legacyoptions"):
+            for corpus in ("mix", "shipped"):
+                extra.append(dict(entry=entry, limit=5, nlp=entry == "legacynlp", fuzzy=entry != "legacyoptions", thr=0, ponly=False, pboost=False,
+                                  allplat=False, plats=[], nocross=False, boost=False, query="raw", raw=raw, corpus=corpus))
     for s in extra:
         if s["entry"] == "cli":
             s.update(nlp=True, fuzzy=True, thr=-30)
